@@ -303,14 +303,14 @@ Proof. exact program_supported. Qed.
 Print Assumptions C01_program_supported_partial.
 
 (* ... and all together: THE PROPERTY for specifications of concepts, choice sentences (every cardinality phrase, with or without
-   for-each), single-clause constraints (both polarities, with or without a 'where' comparison) and named-instance constraints,
-   any number of each: an interpretation is an answer set of the ground compiled program -- stable in the sense of the reduct,
+   for-each), single-clause constraints (both polarities, with or without a 'where' comparison, or restricted by 'where X is one
+   of v1, ..., vn' on integer-valued subjects) and named-instance constraints, any number of each: an interpretation is an answer set of the ground compiled program -- stable in the sense of the reduct,
    Asp/Ground.v -- if and only if it is a model of the reading.  Hypotheses: the sentences are of the covered kinds with their
    side conditions (different variables, comparison phrases of the language, operands among the labels, duplicate-free object
    domains); no instance of a chosen relation over the universe has the text of a concept atom (`separated`, decidable: it is
    what makes the program hierarchical, proved here); and I holds exactly the declared values of the declared concepts
    (both sides force that for an I made of well-formed atoms; it is assumed here, which is why this is still `_partial`,
-   together with: derived definitions, multi-clause bodies and 'is one of' are outside `covered`).  The ground program is the
+   together with: derived definitions, multi-clause bodies and 'is one of' on anything but a single-clause constraint are outside `covered`).  The ground program is the
    grounding of the compile model that is tied byte-exactly to the implementation on every run; grounding itself is the
    model's (Cnl/Core.v: ground_rule), validated against clingo on every generated specification. *)
 Theorem C01_answer_sets_are_the_models_partial :
@@ -355,7 +355,7 @@ Qed.
    reading: its first two clauses; both by the injectivity of the atom text in name and argument), so the answer sets of the
    ground compiled program ARE the models of the reading.  This is the property's statement, for all specifications of the
    sub-fragment and all interpretations; `_partial` only because the sub-fragment is not all of F0 (derived definitions in the
-   program, multi-clause bodies, 'is one of') and because grounding is the model's. *)
+   program, multi-clause bodies, 'is one of' on definitions and choices) and because grounding is the model's. *)
 Theorem C01_answer_sets_are_the_models_every_interpretation_partial :
   forall (s : spec) (I : interp),
     names_ok s ->
